@@ -793,7 +793,7 @@ class ExprMixin:
             return 1 / self.math_fn('sqrt', [x], st, fr)
         if bc == 1.5:
             return x * self.math_fn('sqrt', [x], st, fr)
-        f = z3.Function('pow', z3.RealSort(), z3.RealSort(), z3.RealSort())
+        f = z3.Function('m_pow', z3.RealSort(), z3.RealSort(), z3.RealSort())
         return f(to_real(x), to_real(y))
 
     def object_binop(self, op, a, b, st, fr):
